@@ -11,7 +11,11 @@
 #include "lib/upipe-modules/upipe_dup.c"
 #include "vspec.h"
 #include "vstub_pipe.h"
-int stub_udict_cmp(struct udict *a, struct udict *b) { return 0; }
+/* dictionary comparison as its contract: equal iff same content id (the real udict_cmp is under contract in C10) */
+int stub_udict_cmp(struct udict *a, struct udict *b)
+{
+    return container_of(a, struct vs_udict, udict)->def_id == container_of(b, struct vs_udict, udict)->def_id ? 0 : 1;
+}
 #ifndef NSUB
 #define NSUB 2
 #endif
@@ -79,6 +83,45 @@ void h_dup_input(void)
     VPOST(gs_ev_fatal > 0 || (WITH_MAIN ? (g_got[3] == 1 && g_got_ptr[3] == uref) : g_got[3] == 0));    /* the main output gets the buffer itself */
     VPOST(gs_uref_live == live_old - 1);                                              /* nothing lost, nothing kept */
     VPOST(gs_ev_fatal > 0 || NSUB < 2 || g_order[0] < g_order[1]);                      /* outputs are served in the order they were added */
+    VCANARY();
+}
+
+/* ---- set_flow_def on the dup pipe (C04: "a downstream pipe always receives and accepts the current flow definition ... again
+ * after every change of flow definition"): an accepted set_flow_def stores (a copy of) the new definition on the pipe and on
+ * EVERY output subpipe — whatever the stub dictionary answers about individual attributes — and an output whose definition
+ * changed is no longer considered to have accepted it (state leaves VALID), so that it is sent again before the next buffer */
+void h_dup_set_flow_def(void)
+{
+    vs_reset_all();
+    VPIPE_INIT_MGR(g_omgr, 0x66616e30, NULL, stub_fan_input, stub_fan_control);
+    struct upipe *upipe = &g_dup.upipe;
+    upipe_dup_mgr.signature = UPIPE_DUP_SIGNATURE; upipe_dup_mgr.upipe_input = upipe_dup_input;
+    upipe->mgr = &upipe_dup_mgr; upipe->uprobe = &gs_probe; upipe->refcount = &g_dup.urefcount; uchain_init(&upipe->uchain);
+    g_dup.urefcount.refcount = 1; g_dup.urefcount.cb = stub_rc_cb; g_dup.urefcount_real.refcount = 1; g_dup.urefcount_real.cb = stub_rc_cb;
+    ulist_init(&g_dup.outputs); ulist_init(&g_dup.requests);
+    g_dup.sub_mgr.signature = UPIPE_DUP_OUTPUT_SIGNATURE; g_dup.sub_mgr.refcount = NULL;
+    VIN(uint16_t, old_id); VIN(uint16_t, new_id); VIN(uint8_t, had_def); VASSUME(old_id < 1000 && new_id < 1000);
+    for (int k = 0; k < 4; k++) { g_got[k] = 0; g_out[k].mgr = &g_omgr; g_out[k].refcount = &g_orc[k]; g_orc[k].refcount = 2; g_orc[k].cb = stub_rc_cb; uchain_init(&g_out[k].uchain); g_out[k].uprobe = NULL; }
+    g_dup.flow_def = NULL; g_dup.output = NULL; g_dup.output_state = UPIPE_HELPER_OUTPUT_NONE;
+    if (had_def & 1) { g_dup.flow_def = vs_make_uref(true, old_id, 0); VASSUME(g_dup.flow_def != NULL); }
+    for (int k = 0; k < NSUB; k++) {
+        struct upipe_dup_output *s = &g_sub[k];
+        s->upipe.mgr = &g_dup.sub_mgr; s->upipe.uprobe = &gs_probe; s->upipe.refcount = &s->urefcount; uchain_init(&s->upipe.uchain);
+        s->urefcount.refcount = 1; s->urefcount.cb = stub_rc_cb;
+        s->output = &g_out[k]; s->flow_def = NULL; ulist_init(&s->request_list);
+        if (had_def & 1) { s->flow_def = vs_make_uref(true, old_id, 0); VASSUME(s->flow_def != NULL); }
+        s->output_state = (had_def & 1) ? UPIPE_HELPER_OUTPUT_VALID : UPIPE_HELPER_OUTPUT_NONE;       /* the sink has accepted the old definition */
+        uchain_init(&s->uchain); ulist_add(&g_dup.outputs, &s->uchain);
+    }
+    struct uref *nd = vs_make_uref(true, new_id, 0); VASSUME(nd != NULL);
+    int ret = upipe_dup_set_flow_def(upipe, nd);
+    VIN(uint8_t, gk); VASSUME(gk < NSUB);
+    if (ret == UBASE_ERR_NONE) {
+        VPOST(g_dup.flow_def != NULL && g_dup.flow_def != nd && vs_def_id(g_dup.flow_def) == new_id);
+        VPOST(g_sub[gk].flow_def != NULL && g_sub[gk].flow_def != nd && vs_def_id(g_sub[gk].flow_def) == new_id);      /* every output holds the new definition */
+        VPOST(g_sub[gk].output_state != UPIPE_HELPER_OUTPUT_VALID || ((had_def & 1) && old_id == new_id));           /* a changed definition has to be sent again */
+    }
+    VPOST(g_got[gk] == 0);                                                                                              /* set_flow_def sends no buffer */
     VCANARY();
 }
 #ifdef VENTRY
